@@ -88,6 +88,8 @@ def step : Sexp → Option Sexp
       match transform m sd p with
       | .ok p' => pure (list [atom "ok", list ((flags m sd p).map atom), encProgram p'])
       | .error k => pure (list [atom "error", atom k])
+  -- derived-type sources are outside FIR: judged by the structural oracle on the real IR only (harness/props/c29.py)
+  | list [atom "c29s", _, _, _, _, _] => some (list [atom "ok", atom "structural"])
   | _ => none
 
 end LokiModel.C29
